@@ -17,6 +17,7 @@ Structural clauses decided:
  R12 header names / values are trimmed with trim() (spaces and tabs)
  R2  (also) each header yields exactly one header-order entry (the pushes of the per-header loop are mutually exclusive)
 """
+from ..engine import lists as L
 from ..engine import q as Q
 from ..engine import tables as TB
 from ..engine import terms as T
@@ -139,18 +140,18 @@ def rule_R2_R3(ctx):
     # horder pushes happen in one forward loop over the parsed headers
     cv = bodies[3]
     S = T.Slicer(cv, P)
-    pushes = [(blk, t) for blk, t in Q.calls(cv, "Vec::<T, A>::push")]
-    nexts = [callee_of(t) for _, t in cv.calls() if callee_of(t).endswith("::next")]
-    fw = all("slice::Iter" in n for n in nexts) and len(nexts) >= 1
-    ctx.check(len(pushes) == 3 and fw, "R2", "http1:horder-forward", "horder built by push inside one forward slice iteration (3 arms)",
-              "horder construction is not a forward push loop (pushes=%d, iterators=%s)" % (len(pushes), nexts), ctx.loc(cv))
-    # each arm pushes Header::new(&header.name) of the *current* header
-    okname = 0
-    for blk, t in pushes:
-        a = Q.call_args(cv, S, blk, t)
-        if any(x[0] == "call" and x[1].endswith("Header::new") and any(y[0] == "field" and y[2] == "name" for y in T.walk(x)) for x in T.walk(a[1])):
-            okname += 1
-    ctx.check(okname == 3, "R2", "http1:horder-names", "every horder entry carries the wire name of its header", "horder entries are not built from header.name", ctx.loc(cv))
+    lb = L.list_build(P, cv)
+    if lb is None:
+        ctx.cannot("R2", "http1:horder-forward", "neither a push loop nor an iterator chain builds the returned header list", ctx.loc(cv))
+    else:
+        ctx.check(len(lb.elements) == 3 and lb.forward, "R2", "http1:horder-forward", "horder built in one forward pass over the parsed headers (3 arms, %s form)" % lb.form,
+                  "horder construction is not one forward pass (elements=%d, iterators=%s)" % (len(lb.elements), [T.short(n) for n in lb.iterators]), ctx.loc(cv))
+        # each arm yields Header::new(&header.name) of the *current* header
+        okname = 0
+        for (eb, blk, v) in lb.elements:
+            if any(x[0] == "call" and x[1].endswith("Header::new") and any(y[0] == "field" and y[2] == "name" for y in T.walk(x)) for x in T.walk(v)):
+                okname += 1
+        ctx.check(okname == 3, "R2", "http1:horder-names", "every horder entry carries the wire name of its header", "horder entries are not built from header.name", ctx.loc(cv))
     # R3 first-wins maps
     n = 0
     for b in bodies[:2]:
@@ -232,11 +233,18 @@ def rule_R5(ctx):
     if cb is None:
         ctx.cannot("R5", "language:comparator", "comparator closure not found", ctx.loc(b, blk))
         return
-    SC = T.Slicer(cb, P)
     q_ok = idx_ok = False
-    for cblk, ct in cb.calls():
-        n = callee_of(ct)
-        args = Q.call_args(cb, SC, cblk, ct)
+    # the comparator and the closures it creates (`.then_with(|| b.1.cmp(&a.1))`): captured operands are traced back to the
+    # comparator's own parameters
+    sites = []
+    for xb in L.with_closures(P, cb):
+        XS = T.Slicer(xb, P)
+        for cblk, ct in xb.calls():
+            args = Q.call_args(xb, XS, cblk, ct)
+            if xb is not cb:
+                args = [T.expand_upvars(P, xb, y, depth=1) for y in args]
+            sites.append((callee_of(ct), args))
+    for n, args in sites:
         if n.endswith("partial_cmp") or n.endswith("total_cmp"):
             pa = [({x[1] for x in T.params_in(y)}, [x[2] for x in T.walk(y) if x[0] == "field"]) for y in args]
             # quality: field 0 of a vs field 0 of b, natural order for max_by
@@ -410,46 +418,48 @@ def rule_R9(ctx):
     """R9: what the header order (horder) records for an ordinary header is its value as parsed - no value dependent dropping"""
     P = ctx.program
     for path in ("huginn_net_http::http1_process::convert_headers_to_http_format", "huginn_net_http::http2_process::convert_http2_headers_to_http_format"):
-        b = P.body(path)
-        S = T.Slicer(b, P)
+        b0 = P.body(path)
         n = 0
-        for blk, t in Q.calls(b, "with_optional_value"):
-            a = Q.call_args(b, S, blk, t)
-            n += 1
-            v = a[-1]
-            drops = sorted({T.short(x[1]) for x in T.calls_in(v) if x[1].endswith(("::filter", "::take_if", "::and_then", "::filter_map", "::xor", "::zip", "::then", "::then_some"))})
-            fromv = any(x[0] == "field" and x[2] == "value" for x in T.walk(v))
-            ctx.check(fromv and not drops, "R9", "%s:value-as-parsed" % T.short(path).split("::")[-1], "horder value = header.value",
-                      "the value recorded in the header order goes through %s: a header with a particular value (e.g. an empty one) is rendered as if it had none "
-                      "(`Name` instead of `Name=[]`)" % (",".join(drops) or "something other than header.value"), ctx.loc(b, blk))
+        for b in L.with_closures(P, b0):
+            S = T.Slicer(b, P)
+            for blk, t in Q.calls(b, "with_optional_value"):
+                a = Q.call_args(b, S, blk, t)
+                n += 1
+                v = T.expand_upvars(P, b, a[-1], depth=6)
+                drops = sorted({T.short(x[1]) for x in T.calls_in(v) if x[1].endswith(("::filter", "::take_if", "::and_then", "::filter_map", "::xor", "::zip", "::then", "::then_some"))})
+                fromv = any(x[0] == "field" and x[2] == "value" for x in T.walk(v))
+                ctx.check(fromv and not drops, "R9", "%s:value-as-parsed" % T.short(path).split("::")[-1], "horder value = header.value",
+                          "the value recorded in the header order goes through %s: a header with a particular value (e.g. an empty one) is rendered as if it had none "
+                          "(`Name` instead of `Name=[]`)" % (",".join(drops) or "something other than header.value"), ctx.loc(b, blk))
         ctx.floor("R9", "with_optional_value sites in " + T.short(path).split("::")[-1], n, 1)
 
 
 def rule_R7(ctx):
     """a common header that is present under any capitalisation is not listed as absent (header names are case-insensitive)"""
     P = ctx.program
-    b = P.body("huginn_net_http::http1_process::build_absent_headers_from_new_parser")
-    S = T.Slicer(b, P)
+    b0 = P.body("huginn_net_http::http1_process::build_absent_headers_from_new_parser")
     n = 0
-    for blk, t in Q.calls(b, "::contains"):
-        a = Q.call_args(b, S, blk, t)
-        hay, needle = a[0], a[1]
-        fold = ("to_lowercase", "to_ascii_lowercase", "to_uppercase", "to_ascii_uppercase")
-        needle_f = any(T.has_call(needle, f) for f in fold)
-        hay_f = any(T.has_call(hay, f) for f in fold)
-        for x in T.walk(hay):
-            if x[0] == "agg" and x[1] == "closure" and x[2] in P.bodies:
-                if any(callee_of(t2).endswith(fold) for _, t2 in P.bodies[x[2]].calls()):
-                    hay_f = True
-        n += 1
-        sel = sorted({T.short(x[1]) for x in T.calls_in(hay) if x[1].endswith(SELECTIVE)})
-        ctx.check(not sel, "R7", "absent-headers:all-present-names", "every header of the message counts as present",
-                  "the set of present header names is built through %s: a header that is on the wire but filtered out there is listed as absent although it also appears "
-                  "in the header order" % ",".join(sel), ctx.loc(b, blk))
-        ctx.check(needle_f and hay_f, "R7", "absent-headers:case-fold", "present names and common-list names are compared case-folded",
-                  "the absent-header list compares header names byte for byte (present side folded=%s, list side folded=%s): a common header sent as `host:` or `ACCEPT:` "
-                  "is on the wire, appears in the header order, and is nevertheless listed as absent" % (hay_f, needle_f), ctx.loc(b, blk))
-    for cb in P.closures_of(b.path):
+    fold = ("to_lowercase", "to_ascii_lowercase", "to_uppercase", "to_ascii_uppercase")
+    for b in L.with_closures(P, b0):
+        S = T.Slicer(b, P)
+        for blk, t in Q.calls(b, "::contains"):
+            a = Q.call_args(b, S, blk, t)
+            hay, needle = T.expand_upvars(P, b, a[0], depth=6), T.expand_upvars(P, b, a[1], depth=6)
+            needle_f = any(T.has_call(needle, f) for f in fold)
+            hay_f = any(T.has_call(hay, f) for f in fold)
+            for x in T.walk(hay):
+                if x[0] == "agg" and x[1] == "closure" and x[2] in P.bodies:
+                    if any(callee_of(t2).endswith(fold) for _, t2 in P.bodies[x[2]].calls()):
+                        hay_f = True
+            n += 1
+            sel = sorted({T.short(x[1]) for x in T.calls_in(hay) if x[1].endswith(SELECTIVE)})
+            ctx.check(not sel, "R7", "absent-headers:all-present-names", "every header of the message counts as present",
+                      "the set of present header names is built through %s: a header that is on the wire but filtered out there is listed as absent although it also appears "
+                      "in the header order" % ",".join(sel), ctx.loc(b, blk))
+            ctx.check(needle_f and hay_f, "R7", "absent-headers:case-fold", "present names and common-list names are compared case-folded",
+                      "the absent-header list compares header names byte for byte (present side folded=%s, list side folded=%s): a common header sent as `host:` or `ACCEPT:` "
+                      "is on the wire, appears in the header order, and is nevertheless listed as absent" % (hay_f, needle_f), ctx.loc(b, blk))
+    for cb in L.with_closures(P, b0)[1:]:
         for blk, t in cb.calls():
             if callee_of(t).endswith("eq_ignore_ascii_case"):
                 n += 1
